@@ -108,29 +108,52 @@ Theorem C40_pushdown_nulls : forall len fs nl q,
 Proof. exact pushdown_nulls_ok. Qed.
 Print Assumptions C40_pushdown_nulls.
 
-(* merge / merge_with_schema.  PARTIAL: what is proved is the behaviour of the two functions that decide
-   validity in both merges, outside the known classes; the row-wise statement for whole merges
-   ([merge_correct], [merge_rows_ok]: every output row = merge_val of the two input rows) is NOT proved in
-   Coq - it is tested on every generated pair with merge_clean = true by the correspondence stream
-   (chk_merge) and by the direct oracle on the real arrays.
-   (1) merge_struct_validity: a merged struct/list row is null iff both rows are null. *)
-Theorem C40_merge_validity_partial : forall l r n,
-  one_sided_nulls l r n = false -> both_all_null l r n = false ->
-  exists mv, merge_struct_validity l n r n = Ok mv /\
-             forall i, i < n -> valid mv i = valid l i || valid r i.
-Proof. exact merge_struct_validity_ok. Qed.
-Print Assumptions C40_merge_validity_partial.
+(* RecordBatchExt::merge, for ALL nested batches outside the known classes (merge_clean: none of
+   one_sided_nulls / both_all_null / validity_offset_dropped / masked_values_leak anywhere in the recursion,
+   and no List<Struct> column present on both sides - that arm of merge has no row-wise specification):
+   every output row is merge_val of the two input rows, i.e. a merged struct is null iff both are null, the
+   left columns come first (a column on both sides: two structs are merged recursively, anything else is the
+   left one), then the right-only columns, and the columns of a null side read as null.
+   (Panics - class nonnullable_child_panics - are excluded by the premise "= Ok m".) *)
+Theorem C40_merge : forall l r m,
+  wfb l = true -> wfb r = true -> merge_clean l r = true -> batch_merge l r = Ok m ->
+  plen m = plen l /\
+  logical m = map2 (merge_val (ptype l) (ptype r)) (logical l) (logical r).
+Proof.
+  intros l r m Wl Wr Hc H. unfold batch_merge in H.
+  destruct (negb (Nat.eqb (plen l) (plen r))); [discriminate|].
+  exact (merge_ok l r m Wl Wr Hc H).
+Qed.
+Print Assumptions C40_merge.
 
-(* (2) adjust_child_validity: a column taken from one side reads as null exactly in the rows where that
-   side's struct is null, and is unchanged elsewhere (same length, same type). *)
-Theorem C40_merge_child_partial : forall child parent n a,
-  plen child = n ->
-  validity_offset_dropped child parent n = false ->
-  adjust_child_validity child parent n = Ok a ->
-  plen a = n /\ ptype a = ptype child /\
-  forall i, i < n -> nth i (logical a) VNull = if valid parent i then nth i (logical child) VNull else VNull.
-Proof. exact adjust_child_validity_ok. Qed.
-Print Assumptions C40_merge_child_partial.
+(* batches of different length are refused with an error *)
+Theorem C40_merge_length_mismatch : forall l r, plen l <> plen r -> batch_merge l r = Err.
+Proof.
+  intros l r H. unfold batch_merge. apply Nat.eqb_neq in H. rewrite H. reflexivity.
+Qed.
+Print Assumptions C40_merge_length_mismatch.
+
+(* merge_with_schema.  PARTIAL: there is NO whole-function theorem for merge_with_schema (schema-ordered
+   struct merge with list / large-list / fixed-size-list columns merged item-wise); what is proved are the
+   two functions that decide validity in both merges, outside the classes:
+   (1) merge_struct_validity: a merged struct/list row is null iff both rows are null;
+   (2) adjust_child_validity: a column taken from one side reads as null exactly in the rows where that
+       side's struct is null and is unchanged elsewhere (same length, same type).
+   The whole function is covered by the correspondence stream merge_schema (model = implementation on every
+   case) and by the direct row-wise oracle on the real arrays only. *)
+Theorem C40_merge_with_schema_partial :
+  (forall l r n,
+     one_sided_nulls l r n = false -> both_all_null l r n = false ->
+     exists mv, merge_struct_validity l n r n = Ok mv /\
+                forall i, i < n -> valid mv i = valid l i || valid r i) /\
+  (forall child parent n a,
+     plen child = n ->
+     validity_offset_dropped child parent n = false ->
+     adjust_child_validity child parent n = Ok a ->
+     plen a = n /\ ptype a = ptype child /\
+     forall i, i < n -> nth i (logical a) VNull = if valid parent i then nth i (logical child) VNull else VNull).
+Proof. split; [exact merge_struct_validity_ok | exact adjust_child_validity_ok]. Qed.
+Print Assumptions C40_merge_with_schema_partial.
 
 (* The known classes: in each of them the faithful model (and the real code: corpus cases of the harness)
    violates the row-wise merge property or panics. *)
